@@ -353,6 +353,8 @@ fn run_fit<T: Sc>(idx: usize, sc: &Scenario) -> ScenOut {
         do_fit: true,
         cert: None,
         threads: 2,
+        post_jac: idx % 2 == 1,
+        refit: idx % 4 == 3,
     };
     let _ = eps;
     let mut steps = Vec::new();
